@@ -105,13 +105,17 @@ bool brute(const Model& m, const Vals& pv, std::vector<mpz_class>& out) {
 
 std::string show(const std::vector<mpz_class>& v) { std::string s = "("; for (size_t i = 0; i < v.size(); ++i) s += (i ? "," : "") + v[i].get_str(); return s + ")"; }
 
+bool g_expensive = false;   // a solve of this run needed > 50 000 checkpoints: the other strategy settings are not tried
 const PIP_Problem::Control_Parameter_Value CUTS[3] = { PIP_Problem::CUTTING_STRATEGY_FIRST, PIP_Problem::CUTTING_STRATEGY_DEEPEST, PIP_Problem::CUTTING_STRATEGY_ALL };
 const PIP_Problem::Control_Parameter_Value PIVS[2] = { PIP_Problem::PIVOT_ROW_STRATEGY_FIRST, PIP_Problem::PIVOT_ROW_STRATEGY_MAX_COLUMN };
-const long STEP_BUDGET = 20000;
+// Bounded-step liveness.  Measured on the repaired solver (DESIGN.md, C07): the longest legitimate solve of
+// these tiny problems took 119 197 checkpoints (nested parametric cuts under CUTTING_STRATEGY_DEEPEST/ALL);
+// the budget is ~8 times that.  The two genuine infinite loops found ran at ~650 000 checkpoints per second.
+const long STEP_BUDGET = 1000000;
 
 struct PipHarness : Harness {
   const char* name() const override { return "pip"; }
-  int child_seconds() const override { return 8; }
+  int child_seconds() const override { return 120; }
   void warmup() override { fault_install_hooks(); }
 
   Plan generate(Rng& r, const std::string&, bool thorough) override {
@@ -195,6 +199,7 @@ struct PipHarness : Harness {
     try { if (sat_only) st = p.is_satisfiable() ? 1 : 0; else st = p.solve() == PPL::UNFEASIBLE_PIP_PROBLEM ? 0 : 1; }
     catch (const Sim_Abandon&) { fault_disarm(); fault_lower_flag(); ctx.violation("C07", "liveness", kl(op, who), "solve() did not return within " + std::to_string(STEP_BUDGET) + " maybe_abandon() checkpoints"); return -1; }
     ctx.stat("pip.checkpoints", g_fault.ab_count);
+    if (g_fault.ab_count > 50000) { ctx.stat("pip.expensive_solves"); g_expensive = true; }
     fault_disarm();
     return st;
   }
@@ -213,7 +218,7 @@ struct PipHarness : Harness {
     // fresh problems from the object's own getters, under the strategy settings
     bool all = ctx.plan->knob("allstrat", 0) != 0;
     for (int c = 0; c < 3; ++c) for (int pv = 0; pv < 2; ++pv) {
-      if (!all && !(c == s.cut && pv == s.piv)) continue;
+      if ((!all || g_expensive) && !(c == s.cut && pv == s.piv)) continue;
       std::string fw = "fresh|cut" + std::to_string(c) + "|piv" + std::to_string(pv) + (ctx.plan->knob("pbound", 0) ? "|pb1" : "|pb0");
       ctx.note(("@" + fw).c_str());
       PIP_Problem f(s.p->space_dimension(), s.p->constraints_begin(), s.p->constraints_end(), s.p->parameter_space_dimensions());
@@ -230,6 +235,7 @@ struct PipHarness : Harness {
     int pool = (int) std::max(1L, std::min(2L, plan.knob("pool", 1)));
     dimension_type nv = (dimension_type) std::max(1L, std::min(3L, plan.knob("vars", 1))), np = (dimension_type) std::max(0L, std::min(2L, plan.knob("params", 0)));
     bool strict_ok = plan.knob("strict", 0) != 0;
+    g_expensive = false;
     std::vector<Slot> S((size_t) pool);
     for (auto& s : S) {
       s.m.dim = nv + np;
